@@ -80,6 +80,11 @@ func vTree(t int) (root *vLvl, version bool) {
 		root = &vLvl{names: "app", spec: "[-f] [X]", action: true, kids: []*vLvl{
 			{names: "c cc", spec: "[X]", action: true}}}
 		version = true
+	case 7:
+		// a sub-command alias may look like an option: routing is by token equality
+		root = &vLvl{names: "app", spec: "[-f]", action: true, kids: []*vLvl{
+			{names: "ls -l --list", spec: "[X]", action: true},
+			{names: "rm", spec: "[-f] X", action: true}}}
 	case 6:
 		// a command may declare an option spelled like the help flag: help still wins
 		root = &vLvl{names: "app", spec: "[-h] [X]", action: true, ownHelp: true, kids: []*vLvl{
@@ -117,6 +122,11 @@ type vTreeRun struct {
 	panicV   interface{}
 	out      string
 }
+
+// vSubPolicy: when set, every sub-command gets this error policy in its initializer
+// (the root keeps the one under test): the rejecting command's own policy is followed.
+var vSubPolicy flag.ErrorHandling
+var vSubPolicySet bool
 
 // vTreeEnv: every level's -f is backed by the environment variable TF (set or not by
 // the harness): routing, policies and help must not depend on where a value comes from.
@@ -169,7 +179,12 @@ func vDeclare(cmd *Cmd, l *vLvl, run *vTreeRun) {
 	cmd.Before = func() { read(); oldB() }
 	for _, k := range l.kids {
 		kk := k
-		cmd.Command(kk.names, "desc-"+vFirstName(kk.names), func(c *Cmd) { vDeclare(c, kk, run) })
+		cmd.Command(kk.names, "desc-"+vFirstName(kk.names), func(c *Cmd) {
+			if vSubPolicySet {
+				c.ErrorHandling = vSubPolicy
+			}
+			vDeclare(c, kk, run)
+		})
 	}
 }
 
@@ -452,6 +467,20 @@ func H_policy() {
 	exp := &vExpect{}
 	vRefTree(root, "app", argv, true, version, exp)
 	vAssume(exp.kind != rkNoAction)
+	vSubPolicySet = false
+	if vParamInt("subpol") == 1 && exp.kind == rkReject && exp.cmd != root {
+		// sub-commands configured with ContinueOnError under a root with another policy:
+		// a rejection by a sub-command returns the error and neither exits nor panics
+		vSubPolicy, vSubPolicySet = flag.ContinueOnError, true
+		for _, pol := range []flag.ErrorHandling{flag.ExitOnError, flag.PanicOnError} {
+			r := vRunTree(root, version, pol, argv, nil)
+			vAssert(len(r.log) == 0, "C07: an Action or interceptor ran on a rejected invocation")
+			vAssert(r.err != nil && !r.exited && !r.panicked && r.exits == 0, "C07: the rejecting command is configured with ContinueOnError: Run must return the error and neither exit nor panic")
+		}
+		vSubPolicySet = false
+		vCover("sub-policy")
+		return
+	}
 	rc := vRunTree(root, version, flag.ContinueOnError, argv, nil)
 	re := vRunTree(root, version, flag.ExitOnError, argv, nil)
 	rp := vRunTree(root, version, flag.PanicOnError, argv, nil)
@@ -493,7 +522,33 @@ func H_help() {
 	exp := &vExpect{}
 	vRefTree(root, "app", argv, true, version, exp)
 	vAssume(!exp.unclaimed)
-	vAssume(exp.kind == rkHelp || exp.kind == rkVersion)
+	if exp.kind != rkHelp && exp.kind != rkVersion {
+		// no help request: either there is no help token, or it follows a `--` within the same
+		// command's own arguments and is ordinary data - then routing applies (C04's oracle)
+		hasHelpTok := false
+		for _, a := range argv {
+			if vIsHelpTok(a) {
+				hasHelpTok = true
+			}
+		}
+		vAssume(hasHelpTok && pol == 0)
+		vAssume(exp.kind != rkNoAction)
+		run := vRunTree(root, version, flag.ContinueOnError, argv, nil)
+		vObserve("kind", exp.kind)
+		vObserve("log", run.log)
+		vAssert(!run.panicked && !run.exited, "C14: a help token that is data made Run panic or exit")
+		if exp.kind == rkRun {
+			vCover("help-token-is-data-run")
+			vAssert(run.err == nil && vEqInts(run.log, vExpectedLog(exp.levels)), "C14: a help token after `--` in the command's own arguments must be ordinary data (the command runs)")
+			last := exp.levels[len(exp.levels)-1]
+			single := vRunTree(nil, false, flag.ContinueOnError, exp.tokens[len(exp.tokens)-1], last)
+			vAssert(vEqStrs(run.recs[last.id].x, single.recs[last.id].x), "C14: tokens after `--` are bound verbatim, help tokens included")
+		} else {
+			vCover("help-token-is-data-reject")
+			vAssert(run.err != nil && len(run.log) == 0, "C14: a help token after `--` is data: the usual validation applies")
+		}
+		return
+	}
 	// statement transcribed: the first help token that no `--` precedes addresses the
 	// command reached by following the sub-command names before it
 	if exp.kind == rkHelp {
